@@ -372,4 +372,13 @@ def rule_identity(ctx):
     _collect.check_structural_identity(ctx, "IDENT", ctx.facts)
 
 
-RULES = [rule_declarations, rule_namespaces, rule_names, rule_one_conjecture, rule_pre1, rule_binding, rule_problem_rename, rule_shared_typing_and_closure, rule_identity]
+def rule_preamble_declares_what_is_printed(ctx):
+    """every built-in identifier the printer can emit (`p__greater__`, `f__integer__`, `$sum` ..) is declared in the preamble at the arity and
+    types it is used with (C06's PRE-1 obligations): a file that uses an undeclared predicate is not self-contained TFF"""
+    from . import c06
+    sub = type(ctx)(ctx.prop, ctx.tier, ctx.facts)
+    c06.rule_pre1(sub)
+    ctx.obls.extend(o for o in sub.obls if o["key"].startswith("PRE-1:"))
+
+
+RULES = [rule_declarations, rule_namespaces, rule_names, rule_one_conjecture, rule_pre1, rule_binding, rule_problem_rename, rule_shared_typing_and_closure, rule_identity, rule_preamble_declares_what_is_printed]
